@@ -233,6 +233,9 @@ def fam_drop(seed, n):
                 sc = {"id": "d%d" % i, "exit": {"k": "exited", "v": 1, "at": at}, "ops": list(pre), "drop": True}
                 if det == "cfg":
                     sc["detached"] = True
+                    # (every other one from a clone of the configuration: a template)
+                    if i % 2:
+                        sc["clone_cfg"] = True
                 elif det == "call":
                     sc["ops"].insert(rng.randint(0, len(sc["ops"])), ["detach"])
                 i += 1
